@@ -16,7 +16,7 @@ import time
 
 VERIF = os.path.dirname(os.path.dirname(os.path.abspath(__file__)))
 REPO = os.environ.get("VERIF_REPO", "/repo")
-OUT = os.path.join(VERIF, "out")
+OUT = os.environ.get("VERIF_OUT", os.path.join(VERIF, "out"))
 SPEC = os.path.join(VERIF, "spec")
 HARNESS = os.path.join(VERIF, "harness")
 sys.path.insert(0, os.path.join(VERIF, "lib"))
@@ -76,7 +76,12 @@ def build_harness(puf=True, release=False):
     if key in _built:
         return _built[key]
     tdir = os.path.join(HARNESS, "target" if puf else "target-nopuf")
-    cmd = ["cargo", "build", "--offline", "--target-dir", tdir]
+    cmd = ["cargo", "build", "--offline"]
+    if REPO != "/repo":
+        # evaluate a scratch copy of the repository (seeded changes) without touching /repo
+        tdir = os.path.join(OUT, "alt-target", hashlib.sha256(REPO.encode()).hexdigest()[:8] + ("" if puf else "-nopuf"))
+        cmd += ["--config", 'paths=["%s"]' % REPO]
+    cmd += ["--target-dir", tdir]
     if release:
         cmd.append("--release")
     if not puf:
